@@ -105,11 +105,11 @@ CORE_FP = [
 ]
 
 
-def mk(t, n, tree, asg, tag):
+def mk(t, n, tree, asg, tag, dest_type=None):
     cell, per = CELL[t]
     ct = CTYPE[t]
     isbool = tree.kind in ('cmp', 'logic', 'not')
-    rt = 'bool' if isbool else t
+    rt = dest_type or ('bool' if isbool else t)
     rct = CTYPE[rt]
     scalar_div = tree.has(lambda x: x.kind == 'bin' and x.op == '/' and x.kids[1].kind == 'scalar') or (asg == '/=' and tree.kind == 'scalar')
     mode = 'ALG' if (scalar_div and t in ('f32', 'f64')) else 'EXACT'
@@ -121,7 +121,7 @@ def mk(t, n, tree, asg, tag):
     regions = [treg('a', t, [n]), treg('b', t, [n]), treg('c', t, [n]), rreg('s', t, 1, role='in', init='sym'), treg('r', rt, [n], role, init='undef' if asg == '=' else 'sym'),
                rreg('rref', rt, n, init='undef' if asg == '=' else 'sym', ns='r')]
     stages = [{'mod': 'wit', 'fn': '@W@', 'args': ['a', 'b', 'c', {'scalar': 's'}, 'r']}, {'mod': 'ref', 'fn': '@R@', 'args': ['a', 'b', 'c', {'scalar': 's'}, 'rref']}]
-    return Witness('ex_%s_%d_%s_%s' % (t, n, {'=': 'set', '+=': 'add', '-=': 'sub', '*=': 'mul', '/=': 'div'}[asg], tag), 'expr.' + ('bool' if isbool else 'arith') + ('.scalardiv' if mode == 'ALG' else ''),
+    return Witness('ex_%s_%d_%s_%s' % (t, n, {'=': 'set', '+=': 'add', '-=': 'sub', '*=': 'mul', '/=': 'div'}[asg], tag), 'expr.' + (('boolrhs' if dest_type else 'bool') if isbool else 'arith') + ('.scalardiv' if mode == 'ALG' else ''),
                    {'type': t, 'n': n, 'assign': asg, 'expr': tree.fastor(), 'depth': tree.depth()}, wit, ref, regions, stages,
                    [{'kind': 'equal', 'a': 'r', 'b': 'rref', 'cells': n, 'mode': mode}])
 
@@ -155,6 +155,13 @@ def witnesses(tier, seed):
             tree = bool_tree(rng, t)
             for n in rng_sz.sample(sizes_all, 2 if quick else 5):
                 W.append(mk(t, n, tree, '=', 'bool%d' % i))
+    # a boolean-valued expression assigned INTO an arithmetic tensor with every assignment operator except '/=' (division by false)
+    for t in types:
+        for i, asg in enumerate(['=', '+=', '-=', '*=']):
+            for j, mkb in enumerate([lambda: Node('cmp', '<', [L('a'), L('b')]), lambda: Node('logic', '&&', [Node('cmp', '>', [L('a'), L('c')]), Node('cmp', '!=', [L('b'), L('c')])]),
+                                     lambda: Node('not', '!', [Node('cmp', '<=', [L('a'), S])])]):
+                for n in (1, 3, 4, 7, 8, 9, 16, 17):
+                    W.append(mk(t, n, mkb(), asg, 'boolrhs%d' % j, dest_type=t))
     # integer division (vector/vector, vector/scalar, scalar/vector; '=' and '/='): appended after the frozen corpus.
     # Division by zero is undefined for the reference as well; the comparison is structural (sdiv terms) and a refutation
     # point with a zero divisor is not a defined execution and is skipped by the evaluator.
@@ -179,6 +186,6 @@ def check(tier, seed):
         return finish('C02', tier, seed, R, 'proof',
                       rule='r op= <expression tree> over Tensor<T,n> operands a,b,c and a scalar s, all symbolic; the reference is the same tree applied to the p-th elements in a plain scalar loop compiled by the same clang (so each C++ scalar operator contributes the IR opcode clang gives it); every flat position p of r is compared EXACTly (hash-consed term equality after bit-preserving rewrites: same IEEE/integer function of the inputs, hence equal for all operand values incl. NaN/Inf/INT_MIN); trees containing division by a scalar are compared ALGEBRAICally (documented reciprocal multiply). Math functions must be the same libm callee on lane p. Trees: fixed core + seeded random trees of depth 3-4; sizes 1..17 (thorough 1..35) so that vector body, scalar tail and every residue are under one oracle; five assignment forms; boolean-valued comparisons and logical operators.',
                       trusted=['clang-14 front end and -O2 code generation', 'LLVM IR semantics as modelled by irflow', 'x86 lane table', 'reference loops emitted by gen/c02.py'],
-                      floors=load_floors('C02', tier), assumptions=['accuracy of libm itself is not analysed (same callee on both sides)', '-ffast-math builds are outside the property'])
+                      floors=load_floors('C02', tier), assumptions=['accuracy of libm itself is not analysed (same callee on both sides)', '-ffast-math builds are outside the property', 'programs the library rejects under every configuration (compound assignment of a logical-not expression) are counted, not judged'], uniform_reject_ok=True)
     finally:
         R.cleanup()
